@@ -54,6 +54,8 @@ pub fn suite_mode_biased(run: u64, rng: &mut Prng, aeads: &[AeadId], shim: bool)
 }
 
 pub fn gen_cfg(rng: &mut Prng, suite: SuiteId, mode: ModeKind, cap: usize) -> Cfg {
+    // now and then a long string (crosses the 2-byte length prefix and HMAC block boundaries)
+    let cap = if cap >= 100 && rng.chance(1, 40) { 70001 } else { cap };
     let info = rng.var_bytes(cap);
     let (psk, psk_id) = if mode.has_psk() {
         let mut psk = rng.var_bytes(cap);
@@ -177,6 +179,18 @@ pub fn gen_c01(rng: &mut Prng, run: u64, t: &Tier) -> Vec<Ev> {
                 ev.push(Ev::Seal { c: 0, pt, aad, inplace: rng.chance(1, 2) });
                 ev.push(Ev::Deliver { r: 0, from: 0, rec: RecRef::Next, fault: Fault::None, api: open_api(rng) });
             }
+            if rng.chance(1, 5) {
+                // both peers continue from a far position (hook), then more in-order traffic
+                let to = if rng.chance(2, 3) { *rng.pick(&jump_targets()) } else { rng.next_u64() };
+                let to = to.min(u64::MAX - 4);
+                ev.push(Ev::Jump { c: 0, role: Role::S, to });
+                ev.push(Ev::Jump { c: 0, role: Role::R, to });
+                for _ in 0..rng.range(1, 4) {
+                    let (pt, aad) = msg(rng, false);
+                    ev.push(Ev::Seal { c: 0, pt, aad, inplace: rng.chance(1, 2) });
+                    ev.push(Ev::Deliver { r: 0, from: 0, rec: RecRef::Next, fault: Fault::None, api: open_api(rng) });
+                }
+            }
             if rng.chance(1, 6) {
                 // long history: the counter crosses 2^8 (and 2^16 in the thorough tier)
                 let n = if t.thorough && rng.chance(1, 4) { 70_000 } else { 300 };
@@ -211,7 +225,7 @@ pub fn gen_c02(rng: &mut Prng, run: u64, _t: &Tier) -> Vec<Ev> {
             }
             if rng.chance(1, 2) {
                 let ctx = b(rng.var_bytes(200));
-                let len = *rng.pick(&[0usize, 1, 16, 31, 32, 33, 48, 64, 65, 100, 255 * 32]);
+                let len = if rng.chance(1, 3) { rng.range(0, 8160) } else { *rng.pick(&[0usize, 1, 16, 31, 32, 33, 48, 64, 65, 100, 255, 256, 257, 1000, 255 * 32]) };
                 ev.push(Ev::Export { c, role: Role::S, ctx: ctx.clone(), len });
                 ev.push(Ev::Export { c, role: Role::R, ctx, len });
             }
@@ -221,6 +235,32 @@ pub fn gen_c02(rng: &mut Prng, run: u64, _t: &Tier) -> Vec<Ev> {
         // counters cross 2^8
         for c in 0..3 {
             ev.push(Ev::Pump { r: c, from: c, n: 260, len: rng.range(0, 20), inplace_s: false, inplace_r: false });
+        }
+    }
+    if seals && rng.chance(1, 2) {
+        // both peers of every pairing continue from a far position (hook): ComputeNonce must agree
+        // with the RFC for every byte of the counter
+        let targets = jump_targets();
+        let mut pos = 0usize;
+        for _ in 0..rng.range(1, 4) {
+            pos += rng.range(0, 5);
+            if pos >= targets.len() {
+                break;
+            }
+            let mut to = targets[pos];
+            if rng.chance(1, 3) {
+                to = to.saturating_add(rng.below(1 << 20)).min(u64::MAX - 4);
+            }
+            pos += 1;
+            for c in 0..3 {
+                ev.push(Ev::Jump { c, role: Role::S, to });
+                ev.push(Ev::Jump { c, role: Role::R, to });
+                for _ in 0..2 {
+                    let (pt, aad) = msg(rng, false);
+                    ev.push(Ev::Seal { c, pt, aad, inplace: rng.chance(1, 2) });
+                    ev.push(Ev::Deliver { r: c, from: c, rec: RecRef::Next, fault: Fault::None, api: open_api(rng) });
+                }
+            }
         }
     }
     ev
@@ -283,7 +323,12 @@ pub fn gen_c04(rng: &mut Prng, run: u64, t: &Tier) -> Vec<Ev> {
             if pos_idx < targets.len() {
                 let skip = rng.geometric(4);
                 pos_idx = (pos_idx + skip).min(targets.len() - 1);
-                let to = targets[pos_idx];
+                let mut to = targets[pos_idx];
+                if rng.chance(1, 4) && pos_idx + 1 < targets.len() {
+                    // somewhere strictly between two boundary targets
+                    let hi = targets[pos_idx + 1];
+                    to += rng.below((hi - to).max(1));
+                }
                 pos_idx += 1;
                 ev.push(Ev::Jump { c: 0, role: Role::S, to });
                 if !shim {
@@ -498,9 +543,10 @@ pub fn gen_c06(rng: &mut Prng, run: u64, t: &Tier) -> Vec<Ev> {
     setup_pair(&mut ev, rng, 0, &cfg, false, false);
     let nrec = rng.range(1, 4);
     let max_bits = if t.thorough { 65536 } else { 4096 };
-    if rng.chance(1, 3) {
-        let to = if rng.chance(1, 2) { *rng.pick(&jump_targets()) } else { rng.next_u64() };
-        let to = to.min(u64::MAX - 8);
+    if rng.chance(1, 2) {
+        let to = if rng.chance(2, 3) { *rng.pick(&jump_targets()) } else { rng.next_u64() };
+        // the last of the nrec records may sit exactly on 2^64-1, the last admissible position
+        let to = to.min(u64::MAX - (nrec as u64 - 1));
         ev.push(Ev::Jump { c: 0, role: Role::S, to });
         ev.push(Ev::Jump { c: 0, role: Role::R, to });
     }
@@ -1019,6 +1065,10 @@ pub fn gen_c10(rng: &mut Prng, run: u64, _t: &Tier) -> Vec<Ev> {
         }
         1 => {
             ev.push(Ev::SetupR { c: 0, cfg: cfg.clone(), kr: 0, ks, enc: EncSrc::Raw(b(hostile.clone())), model_only: false });
+            for tag in [None, Some(b(rng.bytes(16)))] {
+                ev.push(Ev::SingleShotOpenRaw { cfg: cfg.clone(), kr: 0, ks, enc: EncSrc::Raw(b(hostile.clone())), ct: b(rng.bytes(40)), aad: b(vec![]), tag });
+            }
+            ev.push(Ev::KeyRaw { k: 4, kem, sk: b(rng.rand_bytes(32)), pk: b(hostile.clone()) });
             // single-shot open on the same parameters: a context must not come into being either
             ev.push(Ev::SetupS { c: 3, cfg: cfg.clone(), kr: 0, ks, ks_pub: None, rng: rng_script(rng, kem), model_only: false });
             let (pt, aad) = msg(rng, false);
@@ -1037,6 +1087,9 @@ pub fn gen_c10(rng: &mut Prng, run: u64, _t: &Tier) -> Vec<Ev> {
             // an honest sender context (identity key 1) provides an honest ENC
             ev.push(Ev::SetupS { c: 0, cfg: cfg.clone(), kr: 0, ks: Some(1), ks_pub: None, rng: rng_script(rng, kem), model_only: false });
             ev.push(Ev::SetupR { c: 0, cfg: cfg.clone(), kr: 0, ks: Some(2), enc: EncSrc::Of(0), model_only: false });
+            for tag in [None, Some(b(rng.bytes(16)))] {
+                ev.push(Ev::SingleShotOpenRaw { cfg: cfg.clone(), kr: 0, ks: Some(2), enc: EncSrc::Of(0), ct: b(rng.bytes(33)), aad: b(vec![1]), tag });
+            }
             // and a sender that *claims* a small-order public identity key (only kem_context sees it)
             ev.push(Ev::SetupS { c: 1, cfg: cfg.clone(), kr: 0, ks: Some(1), ks_pub: Some(2), rng: rng_script(rng, kem), model_only: false });
         }
@@ -1045,7 +1098,8 @@ pub fn gen_c10(rng: &mut Prng, run: u64, _t: &Tier) -> Vec<Ev> {
             let pkx = if rng.chance(1, 2) { rng.rand_bytes(32) } else { let mut v = small[enc_i].clone(); let bit = rng.range(8, 250); v[bit / 8] ^= 1 << (bit % 8); v };
             ev.push(Ev::KeyRaw { k: 2, kem, sk: b(rng.rand_bytes(32)), pk: b(pkx.clone()) });
             ev.push(Ev::SetupS { c: 0, cfg: cfg.clone(), kr: 2, ks, ks_pub: None, rng: rng_script(rng, kem), model_only: false });
-            ev.push(Ev::SetupR { c: 0, cfg: cfg.clone(), kr: 0, ks, enc: EncSrc::Raw(b(pkx)), model_only: false });
+            ev.push(Ev::SetupR { c: 0, cfg: cfg.clone(), kr: 0, ks, enc: EncSrc::Raw(b(pkx.clone())), model_only: false });
+            ev.push(Ev::SingleShotOpenRaw { cfg: cfg.clone(), kr: 0, ks, enc: EncSrc::Raw(b(pkx)), ct: b(rng.bytes(20)), aad: b(vec![]), tag: None });
             ev.push(Ev::KemProbe { kem, kr: 2, ks: None, rng: rng_script(rng, kem) });
         }
     }
@@ -1185,12 +1239,41 @@ pub fn gen_c13(rng: &mut Prng, run: u64, t: &Tier) -> Vec<Ev> {
     // receiver setup on hostile but decodable encapsulated keys
     let enc_src = if kem == KemId::X25519 { EncSrc::Raw(b(rng.bytes(32))) } else { EncSrc::OfFlip(0, rng.below(8) as usize) };
     ev.push(Ev::SetupR { c: 1, cfg: cfg.clone(), kr: 0, ks: if mode.has_auth() { Some(1) } else { None }, enc: enc_src, model_only: false });
+    {
+        let e2 = if kem == KemId::X25519 { EncSrc::Raw(b(rng.bytes(32))) } else { EncSrc::OfFlip(0, rng.below(2000) as usize) };
+        let l = *rng.pick(&[0usize, 1, 15, 16, 17, 64]);
+        let tag = if rng.chance(1, 2) { Some(b({ let tl = *rng.pick(&[0usize, 15, 16, 16, 17]); rng.bytes(tl) })) } else { None };
+        ev.push(Ev::SingleShotOpenRaw { cfg: cfg.clone(), kr: 0, ks: if mode.has_auth() { Some(1) } else { None }, enc: e2, ct: b(rng.bytes(l)), aad: b(rng.var_bytes(10)), tag });
+    }
     // opening: lengths 0, 1, Nt-1, Nt, Nt+1, garbage up to 70 001
     for _ in 0..6 {
         let l = *rng.pick(&[0usize, 1, 2, 14, 15, 16, 17, 18, 31, 32, 33, 64, 255, 4096, 65536, huge]);
         let aad = b(if rng.chance(1, 8) { rng.bytes(huge) } else { rng.var_bytes(64) });
         let tag = if rng.chance(1, 2) { Some(b({ let l = *rng.pick(&[0usize, 1, 15, 16, 16, 16, 17, 32, 4096]); rng.bytes(l) })) } else { None };
         ev.push(Ev::RawOpen { r: if rng.chance(1, 4) { 1 } else { 0 }, ct: b(rng.bytes(l)), aad, tag });
+    }
+    // lifecycle states: the same hostile inputs against a context at a far position or an exhausted one
+    match rng.below(4) {
+        0 => {
+            let to = *rng.pick(&jump_targets());
+            ev.push(Ev::Jump { c: 0, role: Role::S, to });
+            ev.push(Ev::Jump { c: 0, role: Role::R, to });
+        }
+        1 => {
+            ev.push(Ev::Jump { c: 0, role: Role::S, to: u64::MAX });
+            ev.push(Ev::Jump { c: 0, role: Role::R, to: u64::MAX });
+            ev.push(Ev::Seal { c: 0, pt: b(vec![9]), aad: b(vec![]), inplace: false });
+            ev.push(Ev::Deliver { r: 0, from: 0, rec: RecRef::Next, fault: Fault::None, api: OpenApi::Alloc });
+            // now both are exhausted
+            for _ in 0..6 {
+                let l = *rng.pick(&[0usize, 1, 2, 14, 15, 16, 17, 18, 31, 32, 33, 64, 255, 4096]);
+                let tag = if rng.chance(1, 2) { Some(b({ let tl = *rng.pick(&[0usize, 15, 16, 16, 17]); rng.bytes(tl) })) } else { None };
+                ev.push(Ev::RawOpen { r: 0, ct: b(rng.bytes(l)), aad: b(rng.var_bytes(20)), tag });
+            }
+            let (pt, aad) = msg(rng, false);
+            ev.push(Ev::Seal { c: 0, pt, aad, inplace: rng.chance(1, 2) });
+        }
+        _ => {}
     }
     // valid traffic with hostile modifications
     let (pt, aad) = msg(rng, true);
@@ -1247,7 +1330,12 @@ pub fn gen_c14(rng: &mut Prng, run: u64, _t: &Tier) -> Vec<Ev> {
     ev.push(Ev::SingleShotSeal { c: 0, cfg: cfg.clone(), kr, ks, rng: rng_script(rng, kem), pt, aad, inplace: rng.chance(1, 2) });
     // receiver: single-shot open vs setup_receiver + open, on valid traffic and on every failure path
     let enc = if kem == KemId::X25519 && rng.chance(1, 6) { EncSrc::Raw(b(rng.pick(&math::x25519_small_order()).clone())) } else { EncSrc::Of(0) };
-    ev.push(Ev::SetupR { c: 0, cfg: cfg.clone(), kr: 0, ks, enc, model_only: false });
+    ev.push(Ev::SetupR { c: 0, cfg: cfg.clone(), kr: 0, ks, enc: enc.clone(), model_only: false });
+    for _ in 0..2 {
+        let l = *rng.pick(&[0usize, 1, 15, 16, 17, 40]);
+        let tag = if rng.chance(1, 2) { Some(b({ let tl = *rng.pick(&[0usize, 15, 16, 16, 17]); rng.bytes(tl) })) } else { None };
+        ev.push(Ev::SingleShotOpenRaw { cfg: cfg.clone(), kr: 0, ks, enc: enc.clone(), ct: b(rng.bytes(l)), aad: b(rng.var_bytes(10)), tag });
+    }
     for _ in 0..rng.range(1, 4) {
         let fault = if rng.chance(1, 2) { Fault::None } else { gen_fault(rng) };
         // the same (record, fault) through all four interfaces; the receiver is re-pinned by a restart
